@@ -265,7 +265,7 @@ SUBCHECKS = [
     SubCheck(name="labelling_phase_beta_forms", strategy=relabel_case, execute=execute_relabel,
              budget={"quick": 120, "thorough": 6000}, shards={"quick": 2, "thorough": 8}, modes=["jit", "nojit"]),
     SubCheck(name="covariance_floor_forms", strategy=floor_case, execute=execute_floor,
-             budget={"quick": 160, "thorough": 6000}, shards={"quick": 4, "thorough": 8}, modes=["jit"]),
+             budget={"quick": 96, "thorough": 6000}, shards={"quick": 8, "thorough": 8}, modes=["jit"]),
     SubCheck(name="end_to_end_forms", strategy=e2e_case, execute=execute_e2e,
              budget={"quick": 64, "thorough": 2000}, shards={"quick": 16, "thorough": 8}, modes=E2E_MODES),
 ]
